@@ -26,13 +26,32 @@ static bool hv_exact(const HeaderVar &h, jwt_alg_t a) {  // header names exactly
   const char *n = jwt_alg_str(a); if (!n || !h.alg_json) return false; return std::string("\"") + n + "\"" == h.alg_json;
 }
 
-enum SigKind { S_ABSENT, S_GARBAGE, S_ATT_EMPTY, S_ATT_PEM, S_ATT_RAW, S_ATT_OWN, S_REALKEY, S_NATIVE, S_NKINDS };
-static const char *SK[] = {"absent", "garbage", "att-empty-hmac-key", "att-pubpem-hmac-key", "att-rawpub-hmac-key", "att-own-keypair", "real-key", "real-key-native-alg-under-other-header"};
+enum SigKind { S_ABSENT, S_GARBAGE, S_ATT_EMPTY, S_ATT_PEM, S_ATT_RAW, S_ATT_OWN, S_REALKEY, S_NATIVE, S_LEN256, S_LEN64K, S_NKINDS };
+static const char *SK[] = {"absent", "garbage", "att-empty-hmac-key", "att-pubpem-hmac-key", "att-rawpub-hmac-key", "att-own-keypair", "real-key", "real-key-native-alg-under-other-header", "garbage-of-256-characters", "garbage-of-65536-characters"};
 
 struct KeyCfg { const KeySpec *k; std::string attr; bool has_attr; jwt_alg_t attr_alg; LKey priv, pub; std::string label; };
 static std::vector<std::unique_ptr<KeyCfg>> KC;
 static Pool POOL;
 static std::map<std::string, const KeySpec *> ATTACKER;  // own key pairs of the attacker, per family/curve
+
+// ---- probe at the provider boundary ("an algorithm is never evaluated with a key of another family").
+// struct jwk_item keeps HMAC key bytes and the provider's key object in ONE union: a provider's asymmetric operation that is
+// entered with an oct key reads the secret bytes as a key object (and the HMAC operation entered with an asymmetric key reads a
+// key object as bytes). The three signing/verifying entries of the active provider are wrapped to see with what they are entered.
+extern "C" {
+#include "jwt-private.h"
+}
+static struct jwt_crypto_ops WRAPPED; static struct jwt_crypto_ops *REAL_OPS = nullptr;
+static long g_oct_in_pem_op = 0, g_asym_in_hmac_op = 0;
+static int w_sign_hmac(jwt_t *jwt, char **out, unsigned int *len, const char *str, unsigned int sl) { if (jwt->key && jwt->key->kty != JWK_KEY_TYPE_OCT) g_asym_in_hmac_op++; return REAL_OPS->sign_sha_hmac(jwt, out, len, str, sl); }
+static int w_sign_pem(jwt_t *jwt, char **out, unsigned int *len, const char *str, unsigned int sl) { if (jwt->key && jwt->key->kty == JWK_KEY_TYPE_OCT) { g_oct_in_pem_op++; return 1; } return REAL_OPS->sign_sha_pem(jwt, out, len, str, sl); }
+static int w_verify_pem(jwt_t *jwt, const char *head, unsigned int hl, unsigned char *sig, int sl) { if (jwt->key && jwt->key->kty == JWK_KEY_TYPE_OCT) { g_oct_in_pem_op++; return 1; } return REAL_OPS->verify_sha_pem(jwt, head, hl, sig, sl); }
+static void use_provider(int prov) {
+  set_provider(prov);
+  REAL_OPS = jwt_ops; WRAPPED = *jwt_ops; WRAPPED.sign_sha_hmac = w_sign_hmac; WRAPPED.sign_sha_pem = w_sign_pem; WRAPPED.verify_sha_pem = w_verify_pem; jwt_ops = &WRAPPED;
+  g_oct_in_pem_op = g_asym_in_hmac_op = 0;
+}
+static std::string probe_verdict() { if (g_oct_in_pem_op) return "asymmetric-operation-entered-with-oct-key"; if (g_asym_in_hmac_op) return "hmac-operation-entered-with-asymmetric-key"; return ""; }
 
 enum Route { R_SETKEY, R_CB_BOTH, R_CB_KEY, R_CB_ALG, R_SWAP_KEY, R_N };
 static const char *RN[] = {"setkey", "cb-selects-key+alg", "cb-selects-key", "setkey(none,key)+cb-sets-alg", "setkey(none,sibling-key-with-alg-attr)+cb-swaps-key"};
@@ -80,6 +99,11 @@ static void init_keys(bool thorough) {
     crafted.push_back(s);
   }
   for (auto &s : crafted) { add_cfg(&s, "", false); add_cfg(&s, s.name.find("evp6") != std::string::npos ? "RS256" : s.name.find("408") != std::string::npos ? "ES256" : s.name.find("912") != std::string::npos ? "PS256" : "EdDSA", true); }
+  // the same probes with exactly the size the asymmetric algorithm's own size test looks for (appended: earlier indices keep their meaning)
+  static std::vector<KeySpec> crafted2; crafted2.reserve(8);
+  struct CS { int id; int len; const char *alg; }; static const CS css[] = {{408, 32, "ES256"}, {408, 32, "ES256K"}, {1087, 32, "EdDSA"}, {1088, 57, "EdDSA"}, {408, 48, "ES384"}, {6, 256, "RS256"}, {912, 256, "PS512"}, {6, 512, "RS384"}};
+  for (auto &c : css) { KeySpec s = oct_key("oct" + std::to_string(c.len) + "-evp" + std::to_string(c.id) + "-" + c.alg, c.len); s.oct[0] = (char)(c.id & 0xff); s.oct[1] = (char)((c.id >> 8) & 0xff); s.oct[2] = 0; s.oct[3] = 0; crafted2.push_back(s); }
+  for (size_t i = 0; i < crafted2.size(); i++) { add_cfg(&crafted2[i], "", false); add_cfg(&crafted2[i], css[i].alg, true); }
   ATTACKER["RSA"] = &POOL.get("rsa_2048b"); ATTACKER["P-256"] = &POOL.get("ec_p256b"); ATTACKER["P-384"] = &POOL.get("ec_p384b");
   ATTACKER["P-521"] = &POOL.get("ec_p521b"); ATTACKER["secp256k1"] = &POOL.get("ec_k256b"); ATTACKER["OKP"] = &POOL.get("ed25519b"); ATTACKER["OCT"] = &POOL.get("oct64b");
 }
@@ -100,6 +124,9 @@ static std::string make_token(const KeySpec &k, const HeaderVar &h, int sk) {
   switch (sk) {
   case S_ABSENT: return in + ".";
   case S_GARBAGE: { Rng r(fnv(in)); size_t n = bi && bi->kind == K_EC ? 2 * ((bi->ecbits + 7) / 8) : bi && bi->kind == K_RSA ? 256 : bi && bi->kind == K_OKP ? 64 : 32; return in + "." + b64u_enc(r.bytes(n)); }
+  // third segments whose LENGTH is a multiple of 2^8 / 2^16 characters (a length kept in a narrow integer reads as "empty")
+  case S_LEN256: { Rng r(fnv(in) + 1); return in + "." + b64u_enc(r.bytes(192)); }
+  case S_LEN64K: { Rng r(fnv(in) + 2); return in + "." + b64u_enc(r.bytes(49152)); }
   case S_ATT_EMPTY: if (!bi || bi->kind != K_OCT) return ""; return in + "." + b64u_enc(ref_hmac("", bi->md, in));
   case S_ATT_PEM: if (!bi || bi->kind != K_OCT || k.kind == K_OCT) return ""; return in + "." + b64u_enc(ref_hmac(pkey_to_pem(k.pkey, false), bi->md, in));
   case S_ATT_RAW: if (!bi || bi->kind != K_OCT || k.kind == K_OCT) return ""; return in + "." + b64u_enc(ref_hmac(raw_pub(k), bi->md, in));
@@ -174,7 +201,7 @@ static bool verify_cell(Cell c, bool count = true) {
   const jwk_item_t *item = kc ? kc->pub.item : nullptr;
   if (kc && kc->k->kind == K_OCT) item = kc->priv.item;
   CUR = c;
-  set_provider(c.prov);
+  use_provider(c.prov);
   jwt_checker_t *ch = jwt_checker_new();
   jwt_checker_time_leeway(ch, JWT_CLAIM_EXP, 0);
   CbCtx cx{item, (jwt_alg_t)c.E, c.route};
@@ -199,6 +226,7 @@ static bool verify_cell(Cell c, bool count = true) {
   }
   int ret = jwt_checker_verify(ch, c.token.c_str());
   const char *msg = jwt_checker_error_msg(ch);
+  if (!PROP_C03) { std::string pv = probe_verdict(); if (!pv.empty()) ok = !st.violation("C02:verify:" + pv, "during jwt_checker_verify the provider's " + pv, cell_json(c)) && ok; }
   if (count) { st.evaluations++; st.cls(ret == 0 ? "verify-accept" : "verify-reject"); }
   // ---- model
   std::string reason;
@@ -244,7 +272,7 @@ static bool builder_cell(Cell c, bool count = true) {
   const KeyCfg *kc = c.kc >= 0 ? KC[c.kc].get() : nullptr;
   const jwk_item_t *item = kc ? (c.pubkey ? kc->pub.item : kc->priv.item) : nullptr;
   c.builder = true; CUR = c;
-  set_provider(c.prov);
+  use_provider(c.prov);
   jwt_builder_t *b = jwt_builder_new();
   CbCtx cx{item, (jwt_alg_t)c.E, c.route};
   int admitted = 1; bool skip = false;
@@ -268,6 +296,7 @@ static bool builder_cell(Cell c, bool count = true) {
   }
   char *out = jwt_builder_generate(b);
   if (count) { st.evaluations++; st.cls(out ? "generate-token" : "generate-null"); }
+  if (!PROP_C03) { std::string pv = probe_verdict(); if (!pv.empty()) ok = !st.violation("C02:generate:" + pv, "during jwt_builder_generate the provider's " + pv, cell_json(c)) && ok; }
   std::string reason;
   if (kc) { reason = model_reject_reason(c.E, kc, tb != 0); if (reason.empty() && pub_asym) reason = "public-key"; }
   else if (c.E != JWT_ALG_NONE) reason = "alg-without-key";
@@ -318,7 +347,7 @@ static bool c03_shapes(int prov, int w, int W) {
   for (int cfg = 0; cfg < 5; cfg++) {
     for (auto &tok : shapes) {
       if ((idx++ % W) != w) continue;
-      set_provider(prov);
+      use_provider(prov);
       jwt_checker_t *ch = jwt_checker_new();
       LKey *lk = nullptr; const KeySpec *ks = nullptr; bool haskey = false;
       static LKey k_hs_attr(jwk_json(POOL.get("oct64"), [] { JwkOpts o; o.alg = "HS256"; return o; }()));
@@ -400,7 +429,7 @@ int main(int argc, char **argv) {
             for (int sk = 0; sk < S_NKINDS; sk++) {
               const KeySpec &ks = kc ? *kc->k : nokey_dummy;
               if (!kc && (sk == S_ATT_PEM || sk == S_ATT_RAW || sk == S_NATIVE)) continue;
-              if (PROP_C03 && !(sk == S_ABSENT || sk == S_GARBAGE || sk == S_REALKEY || HV[hv].base == JWT_ALG_NONE)) continue;
+              if (PROP_C03 && !(sk == S_ABSENT || sk == S_GARBAGE || sk == S_LEN256 || sk == S_LEN64K || sk == S_REALKEY || HV[hv].base == JWT_ALG_NONE)) continue;
               const std::string &tok = token_for(kci, ks, hv, sk);
               if (tok.empty()) continue;
               Cell c{prov, route, E, kci, hv, sk, false, false, tok};
